@@ -75,6 +75,7 @@ def step (e : St) (ws : List String) : St × List String :=
     match id.toNat?, vec.toNat?, lvl.toNat? with
     | some id, some vec, some lvl =>
       if !e.exact then (e, ["ins -"]) else
+      if mdFits (parseMd md) = false then (e, "ins mdtoolarge" :: dump e.s) else
       match insert Pmin Pmax e.dist e.cfg e.s id vec (parseMd md) lvl with
       | .ok s' => ({ e with s := s' }, "ins ok" :: dump s')
       | .error _ => (e, "ins exists" :: dump e.s)
